@@ -788,25 +788,8 @@ Qed.
 (* a boolean check of the hypothesis (for the interpreter: every generated case value can *)
 (* be tested for membership in the class the theorem speaks about)                        *)
 (* ------------------------------------------------------------------------------------ *)
-Fixpoint decodableb (fuel : nat) (v : gval) : bool :=
-  match fuel with
-  | O => false
-  | S n =>
-    match v with
-    | VNil => true
-    | VBool TBool _ => true
-    | VInt (TInt k) z => ik_in k z
-    | VFloat TF32 _ | VFloat TF64 _ => true
-    | VStr TStr _ => true
-    | VSlice (TSlice TAny) _ l => forallb (decodableb n) l
-    | VMap (TMap TAny TAny) _ kvs =>
-        forallb (fun kv : gval * gval => decodableb n (fst kv) && decodableb n (snd kv)) kvs
-    | VMap (TMap TStr TAny) _ kvs =>
-        forallb (fun kv : gval * gval =>
-                   (match fst kv with VStr TStr _ => true | _ => false end) && decodableb n (snd kv)) kvs
-    | _ => false
-    end
-  end.
+(* decodableb itself is in Schema/Decodable.v (a model file: the extraction must not depend on proofs) *)
+From Verif Require Export Schema.Decodable.
 
 Lemma decodableb_sound : forall n v, decodableb n v = true -> decodable v.
 Proof.
